@@ -1952,4 +1952,101 @@ theorem run_LastIns (ops : List Op) (c0 : Cfg) (past : List Op) (w : World) (hc 
     simpa using this
 
 
+
+/-! ## question class -/
+
+theorem digit_ne_hash {c : Char} {n : Nat} (h : c ∈ Nat.toDigits 10 n) : c ≠ '#' := by
+  have hd := Nat.isDigit_of_mem_toDigits (by decide) (by decide) h
+  intro hc; subst hc; revert hd; decide
+
+/-- the class suffix of `questionKey` -/
+def classSuffix (qclass : Nat) : List Char := if qclass = classIN then [] else '#' :: Nat.toDigits 10 qclass
+
+theorem questionKey_eq (n : List Char) (q c : Nat) : questionKey n q c = canon n ++ (qtypeStr q ++ classSuffix c) := by
+  simp [questionKey, cacheKey, classSuffix]
+
+theorem dot_notin_tail (q c : Nat) : '.' ∉ qtypeStr q ++ classSuffix c := by
+  intro hm
+  rcases List.mem_append.mp hm with hm | hm
+  · exact (digit_ne hm).2 rfl
+  · unfold classSuffix at hm
+    split at hm
+    · simp at hm
+    · rcases List.mem_cons.mp hm with hm | hm
+      · cases hm
+      · exact (digit_ne hm).2 rfl
+
+theorem bar_notin_tail (q c : Nat) : '|' ∉ qtypeStr q ++ classSuffix c := by
+  intro hm
+  rcases List.mem_append.mp hm with hm | hm
+  · exact (digit_ne hm).1 rfl
+  · unfold classSuffix at hm
+    split at hm
+    · simp at hm
+    · rcases List.mem_cons.mp hm with hm | hm
+      · cases hm
+      · exact (digit_ne hm).1 rfl
+
+theorem tail_inj {q1 q2 c1 c2 : Nat} (h : qtypeStr q1 ++ classSuffix c1 = qtypeStr q2 ++ classSuffix c2) :
+    q1 = q2 ∧ ((c1 = classIN ∧ c2 = classIN) ∨ c1 = c2) := by
+  unfold classSuffix qtypeStr at h
+  by_cases h1 : c1 = classIN <;> by_cases h2 : c2 = classIN
+  · rw [if_pos h1, if_pos h2] at h
+    simp only [List.append_nil] at h
+    exact ⟨toDigits_inj h, Or.inl ⟨h1, h2⟩⟩
+  · rw [if_pos h1, if_neg h2] at h
+    simp only [List.append_nil] at h
+    have : '#' ∈ Nat.toDigits 10 q1 := by rw [h]; simp
+    exact absurd rfl (digit_ne_hash this)
+  · rw [if_neg h1, if_pos h2] at h
+    simp only [List.append_nil] at h
+    have : '#' ∈ Nat.toDigits 10 q2 := by rw [← h]; simp
+    exact absurd rfl (digit_ne_hash this)
+  · rw [if_neg h1, if_neg h2] at h
+    obtain ⟨r1, r2⟩ := split_first '#' _ _ _ _ (fun hm => digit_ne_hash hm rfl) (fun hm => digit_ne_hash hm rfl) h
+    exact ⟨toDigits_inj r1, Or.inr (toDigits_inj r2)⟩
+
+theorem questionKey_inj {n1 n2 : List Char} {q1 q2 c1 c2 : Nat} (h : questionKey n1 q1 c1 = questionKey n2 q2 c2) :
+    canon n1 = canon n2 ∧ q1 = q2 ∧ c1 = c2 := by
+  rw [questionKey_eq, questionKey_eq] at h
+  obtain ⟨l1, h1⟩ := canon_ends n1
+  obtain ⟨l2, h2⟩ := canon_ends n2
+  rw [h1, h2] at h ⊢
+  simp only [List.append_assoc, List.singleton_append] at h
+  obtain ⟨r1, r2⟩ := split_last '.' l1 l2 _ _ (dot_notin_tail q1 c1) (dot_notin_tail q2 c2) h
+  obtain ⟨r3, r4⟩ := tail_inj r2
+  refine ⟨by rw [r1], r3, ?_⟩
+  rcases r4 with ⟨a, b⟩ | a
+  · rw [a, b]
+  · exact a
+
+theorem bar_notin_questionKey {n : List Char} (q c : Nat) (h : '|' ∉ n) : '|' ∉ questionKey n q c := by
+  rw [questionKey_eq]
+  intro hm
+  rcases List.mem_append.mp hm with hm | hm
+  · exact bar_notin_canon h hm
+  · exact bar_notin_tail q c hm
+
+theorem requestKey_inj {n1 n2 : List Char} {q1 q2 c1 c2 : Nat} {r1 r2 : Route} (hn1 : '|' ∉ n1) (hn2 : '|' ∉ n2)
+    (h : requestKey n1 q1 c1 r1 = requestKey n2 q2 c2 r2) : canon n1 = canon n2 ∧ q1 = q2 ∧ c1 = c2 ∧ r1 = r2 := by
+  have b1 := bar_notin_questionKey q1 c1 hn1
+  have b2 := bar_notin_questionKey q2 c2 hn2
+  unfold requestKey scopedKey at h
+  by_cases e1 : scopeOf r1 = [] <;> by_cases e2 : scopeOf r2 = []
+  · rw [if_pos e1, if_pos e2] at h
+    obtain ⟨a, b, c⟩ := questionKey_inj h
+    exact ⟨a, b, c, scopeOf_inj (by rw [e1, e2])⟩
+  · rw [if_pos e1, if_neg e2] at h
+    exact absurd (h ▸ (by simp : '|' ∈ questionKey n2 q2 c2 ++ '|' :: scopeOf r2)) b1
+  · rw [if_neg e1, if_pos e2] at h
+    exact absurd (h ▸ (by simp : '|' ∈ questionKey n1 q1 c1 ++ '|' :: scopeOf r1)) b2
+  · rw [if_neg e1, if_neg e2] at h
+    obtain ⟨x, y⟩ := split_first '|' _ _ _ _ b1 b2 h
+    obtain ⟨a, b, c⟩ := questionKey_inj x
+    exact ⟨a, b, c, scopeOf_inj y⟩
+
+theorem requestKey_IN (n : List Char) (q : Nat) (r : Route) : requestKey n q classIN r = responseKey n q r := by
+  simp [requestKey, responseKey, questionKey]
+
+
 end DaeVerif.C08
